@@ -1,6 +1,7 @@
 import SpoxModel.Lemmas.Ctx
 import SpoxModel.Generated.CtxIR
 import SpoxModel.Generated.CtxWrites
+import SpoxModel.Generated.ModuleState
 /-!
 # C16 — scoped settings are restored on every exit from their block
 
@@ -62,6 +63,16 @@ theorem settings_restored (b : Block) (w : World) :
 theorem settings_restored_history (bs : List Block) (w : World) :
     (runTop Generated.CtxIR.managers bs w).glob = w.glob :=
   runTop_restores _ generated_good bs w
+
+/-- **Code run later sees the settings in force when it runs**: anything whose behaviour is a function of the
+    settings in force at the time of the call (the body of a `to_function` function, of a Function class, a
+    subgraph or `inline` callback, an operator on Vars created earlier) behaves after any block program exactly as
+    before it - whatever happened inside, including the object's creation or first use. (That the real bodies ARE
+    functions of the settings at call time - nothing captured at creation or first use - is what the carrier
+    scenarios check on every run.) -/
+theorem behaviour_after_blocks {α : Type} (f : Globals → α) (bs : List Block) (w : World) :
+    f (runTop Generated.CtxIR.managers bs w).glob = f w.glob := by
+  rw [settings_restored_history bs w]
 
 /-- Inside the block the setting *is* in force: the body of a block over manager `which` with
     argument `arg` is run exactly in the world where that setting is `arg` and the others are
@@ -131,6 +142,15 @@ theorem write_sites_covered : ∀ s ∈ Generated.CtxWrites.sites, siteCovered s
 theorem write_sites_defaults :
     ∀ i ∈ [0, 1, 2], (Generated.CtxWrites.sites.filter (fun s => s.setting == i && s.kind == "default")).length = 1 := by
   decide +kernel
+
+/-- Obligation (tie G): the process-wide mutable state of spox's core modules - names bound to mutable containers at
+    module or class level, caching decorators, `global` re-bindings, state kept on function objects - is exactly this
+    list (two registries of operator schemas, filled at import). A new cache or memo (through which something
+    computed under one value of a setting could outlive the block, keyed without the setting) fails this. -/
+theorem module_state_inventory :
+    Generated.ModuleState.items =
+      [("src/spox/_schemas.py", "<module>", "DOMAINS", "set"),
+       ("src/spox/_schemas.py", "<module>", "DOMAIN_VERSIONS", "dict")] := by decide +kernel
 
 /-- Non-vacuity: a nested, raising program over all three managers on the generated IR. -/
 example : (runTop Generated.CtxIR.managers
